@@ -57,36 +57,41 @@ func plainEnv(batch int) []string {
 func Spec() *run.Spec {
 	thorough := tierFromArgs() == "thorough"
 	minObs := map[string]int64{
-		"order_hashes":                 200, // distinct visitation orders seen (set)
-		"logs_not_in_index_order":      500,
-		"pool_gt_count_calls":          500,
-		"count_not_divisible_calls":    2000,
-		"repeat_configs_multi_order":   20,
-		"field_canvases_multi_block":   8,
-		"field_block_orders":           2, // distinct block completion orders of AddFieldParallel
-		"race_gomaxprocs":              3,
-		"march_parallel_compared":      10,
-		"many_block_parallel_marches":  6,
-		"history_march_steps":          12,
-		"history_adders":               3,
-		"field_exact_block_bounds":     3,
-		"field_aligned_scenes":         4,
-		"field_cutoffs":                4,
-		"many_block_blocks_over_cpus":  2,
-		"field_parallel_compared":      10,
-		"field_parallel2_compared":     10,
-		"scan_entry_points":            14,
-		"topologies_scanned":           3,
-		"race_field_blocks_marched":    10,
-		"race_field_blocks_filled":     40,
-		"race_scan_callbacks":          1000,
-		"field_overlapping_fields":     2,
-		"field_negative_block_coords":  1,
-		"field_triangles_compared":     10000,
-		"scan_large_max_count_bucket":  1,
-		"scan_default_pool_calls":      100,
-		"modify_outputs_compared":      500,
-		"primitive_identities_checked": 10000,
+		"order_hashes":                         200, // distinct visitation orders seen (set)
+		"logs_not_in_index_order":              500,
+		"pool_gt_count_calls":                  500,
+		"count_not_divisible_calls":            2000,
+		"repeat_configs_multi_order":           20,
+		"field_canvases_multi_block":           8,
+		"field_block_orders":                   2, // distinct block completion orders of AddFieldParallel
+		"race_gomaxprocs":                      3,
+		"march_parallel_compared":              10,
+		"many_block_parallel_marches":          6,
+		"field_polyform_composite_multi_block": 6,
+		"field_kinds":                          7,
+		"nested_outer_calls":                   100,
+		"nested_pairs_checked":                 20000,
+		"nested_kind_pairs":                    20,
+		"history_march_steps":                  12,
+		"history_adders":                       3,
+		"field_exact_block_bounds":             3,
+		"field_aligned_scenes":                 4,
+		"field_cutoffs":                        4,
+		"many_block_blocks_over_cpus":          2,
+		"field_parallel_compared":              10,
+		"field_parallel2_compared":             10,
+		"scan_entry_points":                    14,
+		"topologies_scanned":                   3,
+		"race_field_blocks_marched":            10,
+		"race_field_blocks_filled":             40,
+		"race_scan_callbacks":                  1000,
+		"field_overlapping_fields":             2,
+		"field_negative_block_coords":          1,
+		"field_triangles_compared":             10000,
+		"scan_large_max_count_bucket":          1,
+		"scan_default_pool_calls":              100,
+		"modify_outputs_compared":              500,
+		"primitive_identities_checked":         10000,
 	}
 	if thorough {
 		minObs["order_hashes"] = 2000
@@ -125,11 +130,17 @@ func Spec() *run.Spec {
 				}
 				return 240
 			}, Run: scanLarge, Batch: 15, CPUBudgetS: 60, Env: plainEnv},
+			{Name: "scan-nested", Cases: func(t string) int {
+				if t == "thorough" {
+					return 270
+				}
+				return 27
+			}, Run: scanNested, Batch: 3, CPUBudgetS: 60, StallViolation: true, Env: plainEnv},
 			{Name: "field", Cases: func(t string) int {
 				if t == "thorough" {
-					return 300 + manyBlockCases(t) + historyCases(t)
+					return 300 + manyBlockCases(t) + historyCases(t) + pfStressCases(t)
 				}
-				return 24 + manyBlockCases(t) + historyCases(t)
+				return 24 + manyBlockCases(t) + historyCases(t) + pfStressCases(t)
 			}, Run: fieldCase, Batch: 1, CPUBudgetS: 900, Parallel: 12, Env: plainEnv},
 			{Name: "race-scan", Race: true, Cases: func(t string) int {
 				if t == "thorough" {
@@ -137,6 +148,12 @@ func Spec() *run.Spec {
 				}
 				return 90
 			}, Run: scanRace, Batch: 10, CPUBudgetS: 60, Parallel: 6, Env: raceEnv},
+			{Name: "race-scan-nested", Race: true, Cases: func(t string) int {
+				if t == "thorough" {
+					return 90
+				}
+				return 9
+			}, Run: scanNested, Batch: 3, CPUBudgetS: 60, StallViolation: true, Parallel: 6, Env: raceEnv},
 			{Name: "race-field", Race: true, Cases: func(t string) int {
 				if t == "thorough" {
 					return 150
